@@ -328,6 +328,20 @@ def rule_r3(repo, run):
         loops2 = [p for p in _ancestors(inc[0]) if isinstance(p, ast.For)]
         run.check(R, "ast.clean_dictionary:counter-per-item", bool(loops2) and not pyflow.dominating_tests(inc[0], stop=loops2[0]),
                   "the counter must advance for every item of the list", am.loc(inc[0]))
+    # a default made from the counter can be a suffix another item gives explicitly (`function_suffix: _1` on the first
+    # item, none on the second): the counter has to step over the explicit values of the same list
+    explicit = {}
+    for a in ast.walk(cd):
+        if isinstance(a, ast.Assign) and len(a.targets) == 1 and isinstance(a.targets[0], ast.Name) and \
+                isinstance(a.value, (ast.ListComp, ast.SetComp, ast.GeneratorExp)) and "function_suffix" in ast.unparse(a.value.elt):
+            explicit[a.targets[0].id] = a
+    steps = [c for c in ast.walk(cd) if isinstance(c, ast.Compare) and len(c.ops) == 1 and isinstance(c.ops[0], (ast.In, ast.NotIn))
+             and any(pyflow.is_name(x, "isuffix") for x in ast.walk(c.left))
+             and isinstance(c.comparators[0], ast.Name) and c.comparators[0].id in explicit]
+    run.check(R, "ast.clean_dictionary:fortran_generic-default-suffix", bool(steps),
+              "the default suffix `_<counter>` of a fortran_generic item is never compared with the suffixes given explicitly in "
+              "the same list: `- decl: (float arg)  function_suffix: _1` followed by `- decl: (double arg)` names both variants "
+              "<name>_1", am.loc(cd))
     # assumed rank
     ar = gm.func("GenFunctions.process_assumed_rank")
     s = gm.seg(ar)
